@@ -673,16 +673,23 @@ pub struct GStorage {
     pub skip_init: bool,
     pub skip_x: bool,
     pub heads: HeadSet,
+    /// optional second branch: seg 3 = C, lc commands, max cuts fork2+1 ..= fork2+lc, prior (1,fork2); lc = 0: absent
+    pub lc: u64,
+    pub fork2: u64,
 }
 impl GStorage {
+    /// trunk X plus two branches B and C hanging off it
+    pub fn shape2(lx: u64, fork: u64, lb: u64, fork2: u64, lc: u64) -> Self {
+        Self { lx, lb, fork, skip_init: false, skip_x: false, heads: HeadSet::default(), lc, fork2 }
+    }
     pub fn any() -> Self {
-        let g = Self { lx: kani::any(), lb: kani::any(), fork: kani::any(), skip_init: kani::any(), skip_x: kani::any(), heads: HeadSet::default() };
+        let g = Self { lx: kani::any(), lb: kani::any(), fork: kani::any(), skip_init: kani::any(), skip_x: kani::any(), heads: HeadSet::default(), lc: 0, fork2: 0 };
         kani::assume(g.lx >= 1 && g.lx <= 40 && g.lb >= 1 && g.lb <= 40 && g.fork >= 1 && g.fork <= g.lx);
         g
     }
     /// concrete lengths, symbolic skip entries
     pub fn shape(lx: u64, fork: u64, lb: u64) -> Self {
-        Self { lx, lb, fork, skip_init: kani::any(), skip_x: kani::any(), heads: HeadSet::default() }
+        Self { lx, lb, fork, skip_init: kani::any(), skip_x: kani::any(), heads: HeadSet::default(), lc: 0, fork2: 0 }
     }
     /// is (seg, mc) a command of the graph?
     pub fn valid(&self, l: Location) -> bool {
@@ -691,6 +698,7 @@ impl GStorage {
             0 => mc == 0,
             1 => mc >= 1 && mc <= self.lx,
             2 => mc > self.fork && mc <= self.fork + self.lb,
+            3 => mc > self.fork2 && mc <= self.fork2 + self.lc,
             _ => false,
         }
     }
@@ -703,6 +711,7 @@ impl GStorage {
         match (sa, sb) {
             (0, _) => true,
             (1, 2) => ma <= self.fork,
+            (1, 3) => ma <= self.fork2,
             _ => false,
         }
     }
@@ -710,11 +719,13 @@ impl GStorage {
         let mut s = match i {
             0 => MSeg::holding(id_of(0), loc(0, 0), 0, false, 0, 1),
             1 => MSeg::holding(id_of(self.lx as u8), loc(1, self.lx), 0, false, 1, self.lx),
+            3 => MSeg::holding(id_of((self.fork2 + self.lc) as u8), loc(3, self.fork2 + self.lc), 0, false, self.fork2 + 1, self.lc),
             _ => MSeg::holding(id_of((self.fork + self.lb) as u8), loc(2, self.fork + self.lb), 0, false, self.fork + 1, self.lb),
         };
         match i {
             0 => {}
             1 => s.prior = Prior::Single(loc(0, 0)),
+            3 => s.prior = Prior::Single(loc(1, self.fork2)),
             _ => {
                 s.prior = Prior::Single(loc(1, self.fork));
                 // skip list sorted by max cut ascending
@@ -746,7 +757,7 @@ impl Storage for GStorage {
         Err(StorageError::IoError)
     }
     fn get_segment(&self, l: Location) -> Result<MSeg, StorageError> {
-        if l.segment.get() > 2 {
+        if l.segment.get() > 3 || (l.segment.get() == 3 && self.lc == 0) {
             return Err(StorageError::SegmentOutOfBounds(l));
         }
         Ok(self.seg(l.segment.get()))
